@@ -45,6 +45,35 @@ FlatUnits(kind, text, lo, hi) ==
   ELSE LET mid == (lo + hi) \div 2 IN FlatUnits(kind, text, lo, mid) \o FlatUnits(kind, text, mid + 1, hi)
 UnitStream(kind, text) == FlatUnits(kind, text, 1, Len(text))
 
+\* the octets / septets a codec must produce for a representable text
+Encoded(kind, text) == IF kind = "gsm7p" THEN Pack(UnitStream(kind, text)) ELSE UnitStream(kind, text)
+
+\* decoding a unit stream back (fully specified codings); <<-1>> marks "not decodable"
+RECURSIVE DecUcs2(_)
+DecUcs2(u) ==
+  IF u = <<>> THEN <<>>
+  ELSE IF Len(u) < 2 THEN <<-1>>
+  ELSE LET w == u[1] * 256 + u[2] IN
+       IF w \in 55296..56319
+         THEN IF Len(u) >= 4 /\ (u[3] * 256 + u[4]) \in 56320..57343
+                THEN << 65536 + (w - 55296) * 1024 + (u[3] * 256 + u[4] - 56320) >> \o DecUcs2(Drop(u, 4))
+                ELSE <<-1>>
+       ELSE IF w \in 56320..57343 THEN <<-1>>
+       ELSE <<w>> \o DecUcs2(Drop(u, 2))
+
+\* what decoding the encoded form may return: the text itself; for packed GSM-7 also the
+\* text of an allowed unpacking (the two end-of-message ambiguities)
+DecodedAllowed(kind, text) ==
+  IF kind = "gsm7p"
+    THEN { DecSeptets(s) : s \in { x \in UnpackAllowed(UnitStream(kind, text)) : ValidSeptets(x) } }
+    ELSE { text }
+
+\* wire data_coding numbers the protocol-level content decoders support
+WireKind(proto, n) ==
+  IF proto = "cmpp" THEN
+       CASE n = 0 -> "ascii" [] n = 8 -> "ucs2" [] n = 9 -> "ucs2" [] n = 15 -> "gb" [] OTHER -> "invalid"
+  ELSE CASE n = 0 -> "gsm7u" [] n = 1 -> "ascii" [] n = 3 -> "latin1" [] n = 8 -> "ucs2" [] OTHER -> "invalid"
+
 \* the Windows-1252 characters above U+00FF (the only ones a single-octet coding that
 \* calls itself Latin-1 could conceivably accept besides U+0000..U+00FF)
 CP1252Extras == { 8364, 8218, 402, 8222, 8230, 8224, 8225, 710, 8240, 352, 8249, 338, 381,
